@@ -427,3 +427,34 @@ package interpreter
 // multiplyDivide of the 64-bit fixed-point types (same library, 64-bit raw values)
 //@ schema fmd(T=Fix64Value, min=-pow2(63), max=pow2(63)-1)
 //@ schema fmd(T=UFix64Value, min=0, max=pow2(64)-1)
+
+// ---- conversions to fixed-point types (C16). x24(a): the exact value of any number in units of 10^-24.
+//@ spec x24(a) = ite(kind(a) == Fix64Value, num(a.(Fix64Value)) * 10000000000000000, ite(kind(a) == UFix64Value, num(a.(UFix64Value)) * 10000000000000000, ite(kind(a) == Fix128Value, num(a.(Fix128Value)), ite(kind(a) == UFix128Value, num(a.(UFix128Value)), mval(a) * 1000000000000000000000000))))
+//@ func NewFix64ValueWithInteger
+//@   inline
+//@ func NewUnmeteredFix64ValueWithInteger
+//@   inline
+//@ func NewUFix64ValueWithInteger
+//@   inline
+//@ func NewUnmeteredUFix64ValueWithInteger
+//@   inline
+//@ func fix128BigIntToFix64
+//@   inline
+//@ func fix128BigIntToUFix64
+//@   inline
+//@ func handleFixedPointConversionError
+//@   inline
+//@ func NewFix128ValueFromBigIntWithRangeCheck
+//@   inline
+//@ func NewUFix128ValueFromBigIntWithRangeCheck
+//@   inline
+//@ func NewFix128ValueFromBigInt
+//@   inline
+//@ func NewUFix128ValueFromBigInt
+//@   inline
+//@ schema conv_fixed(N=Fix64, DIV=10000000000000000, min=-pow2(63), max=pow2(63)-1)
+//@ schema conv_fixed(N=UFix64, DIV=10000000000000000, min=0, max=pow2(64)-1)
+//@ schema conv_fixed(N=Fix128, DIV=1, min=-pow2(127), max=pow2(127)-1)
+//@ schema conv_fixed(N=UFix128, DIV=1, min=0, max=pow2(128)-1)
+//@ schema conv_fixed_round(N=Fix64, DIV=10000000000000000, min=-pow2(63), max=pow2(63)-1)
+//@ schema conv_fixed_round(N=UFix64, DIV=10000000000000000, min=0, max=pow2(64)-1)
